@@ -82,7 +82,7 @@ def run(chk: Check):
                 "sanitising, generated-looking '(n)' names and stereo stems; sequences are placed at every directory level of real AKAI, "
                 "Roland and CDDA images, exported into a directory nested inside a sentinel, and every created file is judged")
     k = 4 if thorough else 3
-    budget = 500 if thorough else 70
+    budget = 500 if thorough else 55
     plans = [
         ("akai files", naming.AKAI_POOL if thorough else naming.AKAI_POOL[:9], False, False, "akai"),
         ("akai volumes", naming.AKAI_POOL if thorough else naming.AKAI_POOL[:9], True, False, "akai"),
